@@ -19,6 +19,76 @@ class Tr:
         self.vars = {}       # bv var name -> (Int var, width)
         self.side = []       # range constraints of the variables
         self.keep = []
+        self.bounds = {}     # bv var name -> (lo, hi): facts asserted on the current path (see learn())
+        self.added = []      # cache keys in insertion order (for scope handling)
+        self.marks = []      # per open scope: (len(added), bounds snapshot)
+
+    def push(self):
+        self.marks.append((len(self.added), dict(self.bounds)))
+
+    def pop(self):
+        # translations made inside the scope may rely on bounds learnt in it: forget them
+        n, b = self.marks.pop()
+        for k in self.added[n:]:
+            self.cache.pop(k, None)
+        del self.added[n:]
+        self.bounds = b
+
+    def learn(self, e):
+        """path fact `e` (a z3 Bool over bit-vectors) is being asserted: remember simple variable bounds"""
+        d = e.decl(); kind = d.kind(); ch = e.children()
+        if kind == z3.Z3_OP_AND:
+            for x in ch:
+                self.learn(x)
+            return
+        neg = False
+        if kind == z3.Z3_OP_NOT:
+            neg = True; e = ch[0]; d = e.decl(); kind = d.kind(); ch = e.children()
+        if len(ch) != 2 or not z3.is_bv(ch[0]):
+            return
+        a, b = ch
+        def isvar(x):
+            return x.decl().kind() == z3.Z3_OP_UNINTERPRETED and not x.children()
+        swap = False
+        if isvar(b) and z3.is_bv_value(a):
+            a, b = b, a; swap = True
+        if not (isvar(a) and z3.is_bv_value(b)):
+            return
+        w = a.size(); m = 1 << w; half = m >> 1; cv = b.as_long(); cs = cv - m if cv >= half else cv
+        OPS = {z3.Z3_OP_ULT: 'ult', z3.Z3_OP_ULEQ: 'ule', z3.Z3_OP_UGT: 'ugt', z3.Z3_OP_UGEQ: 'uge', z3.Z3_OP_SLT: 'slt', z3.Z3_OP_SLEQ: 'sle', z3.Z3_OP_SGT: 'sgt', z3.Z3_OP_SGEQ: 'sge', z3.Z3_OP_EQ: 'eq'}
+        op = OPS.get(kind)
+        if op is None:
+            return
+        if swap and op != 'eq':          # c op x  ->  x op' c
+            op = {'ult': 'ugt', 'ule': 'uge', 'ugt': 'ult', 'uge': 'ule', 'slt': 'sgt', 'sle': 'sge', 'sgt': 'slt', 'sge': 'sle'}[op]
+        if neg:
+            if op == 'eq':
+                return
+            op = {'ult': 'uge', 'ule': 'ugt', 'ugt': 'ule', 'uge': 'ult', 'slt': 'sge', 'sle': 'sgt', 'sgt': 'sle', 'sge': 'slt'}[op]
+        lo, hi = 0, m - 1
+        if op == 'eq': lo = hi = cv
+        elif op == 'ult': hi = cv - 1
+        elif op == 'ule': hi = cv
+        elif op == 'ugt': lo = cv + 1
+        elif op == 'uge': lo = cv
+        elif op in ('slt', 'sle'):
+            top = cs - 1 if op == 'slt' else cs
+            if top >= 0:
+                return                   # [0, top] u [half, m): not one interval
+            lo, hi = half, m + top
+        elif op in ('sgt', 'sge'):
+            bot = cs + 1 if op == 'sgt' else cs
+            if bot < 0:
+                return
+            lo, hi = bot, half - 1
+        if lo > hi:
+            return
+        nm = a.decl().name()
+        ol, oh = self.bounds.get(nm, (0, m - 1))
+        nl, nh = max(ol, lo), min(oh, hi)
+        if nl <= nh and (nl, nh) != (ol, oh):
+            self.bounds[nm] = (nl, nh)
+            self.cache.clear()           # cached translations used the wider interval (still valid, but they keep the case splits)
 
     # returns (int term, lo, hi) for a bit-vector expression; value always in [0, 2^w - 1]
     def bv(self, e):
@@ -26,7 +96,7 @@ class Tr:
         r = self.cache.get(k)
         if r is None:
             r = self._bv(e)
-            self.cache[k] = r
+            self.cache[k] = r; self.added.append(k)
             self.keep.append(e)       # AST ids are recycled once an expression is freed: keep it alive
         return r
 
@@ -52,7 +122,8 @@ class Tr:
                 iv = z3.Int('i!' + nm)
                 self.vars[nm] = (iv, w)
                 self.side.append(z3.And(iv >= 0, iv < m))
-            return (self.vars[nm][0], 0, m - 1)
+            lo, hi = self.bounds.get(nm, (0, m - 1))
+            return (self.vars[nm][0], lo, hi)
         if kind == z3.Z3_OP_BADD:
             t, lo, hi = self.bv(ch[0])
             for c in ch[1:]:
@@ -146,6 +217,14 @@ class Tr:
             if s >= w:
                 return (z3.IntVal(0), 0, 0)
             return (a / (1 << s), la >> s, ha >> s)
+        if kind == z3.Z3_OP_BASHR and z3.is_bv_value(ch[1]):
+            s = ch[1].as_long(); a, la, ha = self.bv(ch[0]); half = 1 << (w - 1)
+            if s >= w:
+                s = w - 1
+            if ha < half:                        # non-negative: same as the logical shift
+                return (a / (1 << s), la >> s, ha >> s)
+            q = self.signed(a, w) / (1 << s)     # floor division = arithmetic shift
+            return (z3.If(q < 0, q + m, q), 0, m - 1)
         if kind == z3.Z3_OP_BNOT:
             a, la, ha = self.bv(ch[0])
             return ((m - 1) - a, m - 1 - ha, m - 1 - la)
@@ -160,7 +239,7 @@ class Tr:
         r = self.cache.get(k)
         if r is None:
             r = self._bool(e)
-            self.cache[k] = r
+            self.cache[k] = r; self.added.append(k)
             self.keep.append(e)
         return r
 
@@ -226,13 +305,14 @@ class IntSolver:
         self.tr = Tr(); self.nside = 0
 
     def push(self):
-        self.s.push()
+        self.s.push(); self.tr.push()
 
     def pop(self):
-        self.s.pop()
+        self.s.pop(); self.tr.pop()
 
     def add(self, c):
         t = self.tr.bool(c)
+        self.tr.learn(c)
         self.flush_side()
         self.s.add(t)
 
